@@ -6,7 +6,7 @@ from concurrent.futures import ThreadPoolExecutor
 VERIF = os.path.dirname(os.path.dirname(os.path.abspath(__file__)))
 sys.path.insert(0, VERIF)
 from hyverif import selftest
-dirs = sorted(glob.glob(os.path.join(VERIF, "seeded", "*")))
+dirs = sorted(glob.glob(os.path.join(VERIF, "seeded", sys.argv[1] if len(sys.argv) > 1 else "*")))
 def one(d):
     m = json.load(open(os.path.join(d, "meta.json")))
     v = {"kind": "seeded", "name": m["id"], "property": m["property"], "patch": os.path.join(d, "patch.diff"), "reverse": False, "expect": 1, "rules": []}
